@@ -64,6 +64,8 @@ DriftKey(rec, impl) ==
        \o "/got=" \o ToString(rec.status) \o Bool2S(rec.invoked) \o "/model=" \o ToString(g.status) \o Bool2S(g.invoked)
 
 Add(s, k, idx) == IF k = "" THEN s ELSE s \cup {[idx |-> idx, key |-> k]}
+(* records the check appends as its binding self-test carry a field st: judged, but not counted as drift *)
+AddD(s, k, idx, rec) == IF "st" \in DOMAIN rec THEN s ELSE Add(s, k, idx)
 
 TInit == i = 1 /\ bad = {} /\ notwf = {} /\ da = {} /\ df = {}
 TNext == /\ i <= Len(Log)
@@ -72,15 +74,15 @@ TNext == /\ i <= Len(Log)
             THEN IF ~WFBuild(rec)
                  THEN notwf' = notwf \cup {i} /\ UNCHANGED <<bad, da, df>>
                  ELSE /\ bad' = Add(bad, BuildViol(rec), i)
-                      /\ da' = Add(da, BuildDrift(rec), i)
-                      /\ df' = Add(df, BuildDrift(rec), i)
+                      /\ da' = AddD(da, BuildDrift(rec), i, rec)
+                      /\ df' = AddD(df, BuildDrift(rec), i, rec)
                       /\ UNCHANGED notwf
             ELSE IF ~WFReq(rec)
                  THEN notwf' = notwf \cup {i} /\ UNCHANGED <<bad, da, df>>
                  ELSE /\ bad' = Add(bad, IF rec.invoked /\ ~Satisfies(rec.flags, R(rec.req))
                                          THEN ViolKey(rec.flags, R(rec.req)) ELSE "", i)
-                      /\ da' = Add(da, DriftKey(rec, "asis"), i)
-                      /\ df' = Add(df, DriftKey(rec, "fixed"), i)
+                      /\ da' = AddD(da, DriftKey(rec, "asis"), i, rec)
+                      /\ df' = AddD(df, DriftKey(rec, "fixed"), i, rec)
                       /\ UNCHANGED notwf
          /\ i' = i + 1
 TSpec == TInit /\ [][TNext]_<<i, bad, notwf, da, df>>
